@@ -19,7 +19,7 @@ import subprocess
 
 VERIF = os.path.dirname(os.path.dirname(os.path.abspath(__file__)))
 SUITE = ("cd {d} && /venv/bin/python -m pytest -q -p no:cacheprovider -p no:cov "
-         "-o addopts='--doctest-modules -p no:warnings --ignore=docs/' --ignore=tests/examples --timeout=900 2>&1 | tail -1")
+         "-o addopts='--doctest-modules -p no:warnings --ignore=docs/' --ignore=tests/examples --ignore=demo.py --timeout=900 2>&1 | tail -1")
 
 
 def sh(cmd, **kw):
